@@ -1,8 +1,8 @@
 // C10: storage stays with the allocator that produced it; propagation follows the traits.
-// Allocator SA = A<T, POCCA, POCMA, POCS, AlwaysEqual=false> carries an instance id; select_on_container_copy_construction returns id+100.
+// Allocator SA = A<T, CFG_POCCA, CFG_POCMA, CFG_POCS, AlwaysEqual=false> carries an instance id; select_on_container_copy_construction returns id+100.
 // The ledger records the allocating instance per block and deallocate asserts an equal instance (own.hpp).  The trait combination is a
 // compile-time configuration (-DPOCCA/-DPOCMA/-DPOCS = 0|1), the instance ids of the two arrays and of a supplied allocator are symbolic.
-// std::pmr::polymorphic_allocator has exactly the trait values POCCA=POCMA=POCS=false, is_always_equal=false (its memory_resource
+// std::pmr::polymorphic_allocator has exactly the trait values CFG_POCCA=CFG_POCMA=CFG_POCS=false, is_always_equal=false (its memory_resource
 // dispatches through a vtable into libstdc++.so, which is not in the IR): that configuration stands in for pmr arrays on different resources.
 #include "own.hpp"
 #ifndef DIM
@@ -11,18 +11,18 @@
 #ifndef NB
 #define NB 2
 #endif
-#ifndef POCCA
-#define POCCA 0
+#ifndef CFG_POCCA
+#define CFG_POCCA 0
 #endif
-#ifndef POCMA
-#define POCMA 0
+#ifndef CFG_POCMA
+#define CFG_POCMA 0
 #endif
-#ifndef POCS
-#define POCS 0
+#ifndef CFG_POCS
+#define CFG_POCS 0
 #endif
 constexpr int D = DIM;
 using T = int;
-using SA = A<T, POCCA != 0, POCMA != 0, POCS != 0, false>;
+using SA = A<T, CFG_POCCA != 0, CFG_POCMA != 0, CFG_POCS != 0, false>;
 using Arr = multi::array<T, D, SA>;
 constexpr int NE = D == 1 ? NB : NB * NB;
 
@@ -68,7 +68,7 @@ VF_HARNESS(move_construct) {   // move construction takes the allocator and the 
 VF_HARNESS(copy_assign) {
   { MAKE_TWO(t, a, b);
     b = a;
-    vf_assert(b.get_allocator().id == (POCCA ? t.ia : t.ib), "copy assignment replaces the allocator exactly when propagate_on_container_copy_assignment says so");
+    vf_assert(b.get_allocator().id == (CFG_POCCA ? t.ia : t.ib), "copy assignment replaces the allocator exactly when propagate_on_container_copy_assignment says so");
     check_owner(b); check_owner(a); check_vals(b, t.na, 10); }
   check_all_released();
   vf_reach("copy_assign");
@@ -76,16 +76,16 @@ VF_HARNESS(copy_assign) {
 VF_HARNESS(move_assign) {
   { MAKE_TWO(t, a, b);
     b = std::move(a);
-    vf_assert(b.get_allocator().id == (POCMA ? t.ia : t.ib), "move assignment replaces the allocator exactly when propagate_on_container_move_assignment says so");
+    vf_assert(b.get_allocator().id == (CFG_POCMA ? t.ia : t.ib), "move assignment replaces the allocator exactly when propagate_on_container_move_assignment says so");
     check_owner(b); check_owner(a); check_vals(b, t.na, 10); }
   check_all_released();
   vf_reach("move_assign");
 }
 VF_HARNESS(swap_arrays) {
   { MAKE_TWO(t, a, b);
-    if(!POCS) vf_assume(t.ia == t.ib);   // swapping containers with unequal non-propagating allocators is undefined behaviour by the standard's container rules
+    if(!CFG_POCS) vf_assume(t.ia == t.ib);   // swapping containers with unequal non-propagating allocators is undefined behaviour by the standard's container rules
     swap(a, b);
-    vf_assert(a.get_allocator().id == (POCS ? t.ib : t.ia) && b.get_allocator().id == (POCS ? t.ia : t.ib), "swap replaces the allocators exactly when propagate_on_container_swap says so");
+    vf_assert(a.get_allocator().id == (CFG_POCS ? t.ib : t.ia) && b.get_allocator().id == (CFG_POCS ? t.ia : t.ib), "swap replaces the allocators exactly when propagate_on_container_swap says so");
     check_owner(a); check_owner(b); check_vals(a, t.nb, 40); check_vals(b, t.na, 10); }
   check_all_released();
   vf_reach("swap_arrays");
